@@ -5,9 +5,9 @@ def tgt(name, dtls, vclient, engine):
              hang_is_violation=False)
     if engine == 'libfuzzer':
         d.update(engine='libfuzzer', corpus=['corpus/C08/seeds', 'corpus/C08/' + name], max_len=512, timeout=25,
-                 quick=dict(secs=20, shards=8), thorough=dict(secs=420, shards=16))
+                 quick=dict(secs=12, shards=8), thorough=dict(secs=420, shards=16))
     else:
-        d.update(quick=dict(cases=1600, secs=25), thorough=dict(cases=200000, secs=300))
+        d.update(quick=dict(cases=1200, secs=15), thorough=dict(cases=200000, secs=300))
     return d
 PROP = dict(
     level='exploration',
